@@ -308,7 +308,8 @@ def cmd_check(args, vx):
                     if m["kind"] in seen_kinds:
                         continue
                     seen_kinds.add(m["kind"])
-                    violations.append({"obligation": f"xcheck:{fam}:{m['kind']}:{m['scenario'].get('input', '')[:80]}", "item": f"bounded replay family {fam} (interface T2, real macro, real crate)",
+                    shown = "".join(ch if 32 <= ord(ch) < 127 else "\\x%02x" % (ord(ch) & 0xff) for ch in m["scenario"].get("input", "")[:80])
+                    violations.append({"obligation": f"xcheck:{fam}:{m['kind']}:{shown}", "item": f"bounded replay family {fam} (interface T2, real macro, real crate)",
                                        "message": f"the real code deviates from the specification on a concrete input ({m['kind']}): {m['detail']}",
                                        "spans": [], "rendered": json.dumps(m, indent=1), "tags": [prop], "site": "", "xcheck": m})
         except ToolError as e:
